@@ -13,7 +13,7 @@
      sched_complete  a thread that is scheduled often enough (a bound that does not depend on the other threads)
                      finishes its whole script whatever the others do: lookups are wait-free *)
 From Coq Require Import List Arith String Bool Lia.
-From CelloV Require Import Dispatch.
+From CelloV Require Import Generated Dispatch.
 Import ListNotations.
 
 (* ---------- generic list facts ---------- *)
@@ -527,4 +527,274 @@ Proof.
   - assert (Hne : Nat.eqb c' c = false).
     { apply Nat.eqb_neq. intro; subst. rewrite String.eqb_refl in E. discriminate. }
     rewrite Hne. apply IH. intros c'' Hin. apply Hinj. simpl; auto.
+Qed.
+
+(* ================= statements assembled for Properties_C08.v ================= *)
+
+Section FromCold.
+  Variable cn : cls -> string.
+  Variable wiring : list (nat * cls).
+  Variable ncache : nat.
+  Hypothesis wiring_nodup : NoDup (map fst wiring).
+  Hypothesis wiring_bound : forall i c, In (i, c) wiring -> i < ncache.
+  Variable D : list (string * inst).
+
+  Lemma every_history_from_cold : forall h,
+    exists T', run_history cn wiring (cold_type ncache D) h = Some (T', map (fun kc => dspec cn D (snd kc)) h)
+               /\ inv cn wiring ncache D T'.
+  Proof. intro h. apply history_ok; auto. apply inv_cold_type. Qed.
+
+  Lemma every_history_from_reachable : forall T h, inv cn wiring ncache D T ->
+    exists T', run_history cn wiring T h = Some (T', map (fun kc => dspec cn D (snd kc)) h)
+               /\ inv cn wiring ncache D T'.
+  Proof. intros T h H. apply history_ok; auto. Qed.
+
+  Lemma idle_threads_ok : forall scripts, Forall (thread_ok cn wiring D) (map idle_thread scripts).
+  Proof.
+    intro scripts. apply Forall_forall. intros th Hin. apply in_map_iff in Hin. destruct Hin as [scr [<- _]].
+    split; simpl; [exact I | constructor].
+  Qed.
+
+  Lemma every_schedule_from_cold : forall scripts sched,
+    exists s', run_sched cn wiring sched (cold_type ncache D, map idle_thread scripts) = Some s' /\
+               inv cn wiring ncache D (fst s') /\
+               forall th, In th (snd s') -> Forall (fun e => snd e = dspec cn D (fst e)) (th_log th).
+  Proof.
+    intros scripts sched.
+    destruct (run_sched_ok cn wiring ncache wiring_nodup wiring_bound D sched (cold_type ncache D, map idle_thread scripts))
+      as [s' [Hr [HI HF]]].
+    - split; simpl; [apply inv_cold_type | apply idle_threads_ok].
+    - exists s'. split; [exact Hr|]. split; [exact HI|].
+      intros th Hin. eapply Forall_forall in HF; eauto. destruct HF as [_ Hl]. exact Hl.
+  Qed.
+
+  (* every thread that gets  (number of its lookups) * (2 * #instances + 7)  turns finishes its whole script with the
+     declared answers, whatever the other threads do and however the turns are interleaved *)
+  Lemma wait_free_from_cold : forall scripts sched,
+    (forall tid scr, nth_error scripts tid = Some scr ->
+       List.length scr * (2 * List.length D + 7) <= count_occ Nat.eq_dec sched tid) ->
+    exists s', run_sched cn wiring sched (cold_type ncache D, map idle_thread scripts) = Some s' /\
+               List.length (snd s') = List.length scripts /\
+               forall tid scr th', nth_error scripts tid = Some scr -> nth_error (snd s') tid = Some th' ->
+                 th_todo th' = [] /\ th_cur th' = None /\
+                 th_log th' = map (fun kc => (snd kc, dspec cn D (snd kc))) scr.
+  Proof.
+    intros scripts sched He.
+    destruct (sched_complete cn wiring ncache wiring_nodup wiring_bound D sched (cold_type ncache D, map idle_thread scripts))
+      as [s' [Hr [[HI HF] [Hl Hfin]]]].
+    - split; simpl; [apply inv_cold_type | apply idle_threads_ok].
+    - simpl. intros tid th Hn. rewrite nth_error_map in Hn.
+      destruct (nth_error scripts tid) as [scr|] eqn:E; [|discriminate]. simpl in Hn. inversion Hn; subst th.
+      unfold tmeasure, idle_thread; simpl. rewrite map_length. pose proof (He tid scr E). lia.
+    - exists s'. split; [exact Hr|]. simpl in Hl. rewrite map_length in Hl. split; [exact Hl|].
+      intros tid scr th' Hn Hn'.
+      destruct (Hfin tid (idle_thread scr) th') as [[Ht Hc] Hs]; auto.
+      { simpl. rewrite nth_error_map. rewrite Hn. reflexivity. }
+      split; [exact Ht|]. split; [exact Hc|].
+      assert (Hok : thread_ok cn wiring D th') by (eapply Forall_forall; eauto; eapply nth_error_In; eauto).
+      rewrite (finished_log cn wiring D th' Hok (conj Ht Hc)). rewrite Hs.
+      unfold script, idle_thread; simpl. rewrite map_map. reflexivity.
+  Qed.
+
+  (* method call and cast on top of a lookup *)
+  Variable imem : inst -> nat -> bool.
+
+  Lemma method_call_from_reachable : forall T c m, inv cn wiring ncache D T ->
+    exists T' v, lookup cn wiring KInstance c T = ROk T' v /\ inv cn wiring ncache D T' /\
+      method_result imem true v m =
+        match dspec cn D c with
+        | None => MRaise ClassError                                (* class not implemented *)
+        | Some i => if imem i m then MInvoke i m else MRaise ClassError   (* member left empty *)
+        end.
+  Proof.
+    intros T c m HI. destruct (lookup_ok cn wiring ncache wiring_nodup wiring_bound D KInstance c T HI) as [T' [H1 HI']].
+    exists T', (dspec cn D c). split; [exact H1|]. split; [exact HI'|].
+    unfold method_result. destruct (dspec cn D c); reflexivity.
+  Qed.
+
+  Lemma implements_method_from_reachable : forall T c m, inv cn wiring ncache D T ->
+    exists T' v, lookup cn wiring KScan c T = ROk T' v /\ inv cn wiring ncache D T' /\
+      implements_method_result imem v m = match dspec cn D c with None => false | Some i => imem i m end.
+  Proof.
+    intros T c m HI. destruct (lookup_ok cn wiring ncache wiring_nodup wiring_bound D KScan c T HI) as [T' [H1 HI']].
+    exists T', (dspec cn D c). auto.
+  Qed.
+
+  Lemma cast_from_reachable : forall T ccast tself ttype, inv cn wiring ncache D T ->
+    exists T' v, lookup cn wiring KInstance ccast T = ROk T' v /\ inv cn wiring ncache D T' /\
+      cast_result imem v tself ttype =
+        match dspec cn D ccast with
+        | Some i => if imem i 0 then CCustom i else if Nat.eqb tself ttype then CSelf else CRaise ValueError
+        | None => if Nat.eqb tself ttype then CSelf else CRaise ValueError
+        end.
+  Proof.
+    intros T ccast tself ttype HI.
+    destruct (lookup_ok cn wiring ncache wiring_nodup wiring_bound D KInstance ccast T HI) as [T' [H1 HI']].
+    exists T', (dspec cn D ccast). auto.
+  Qed.
+End FromCold.
+
+Lemma method_absent_or_empty_raises : forall imem r m,
+  (r = None \/ exists i, r = Some i /\ imem i m = false) -> method_result imem true r m = MRaise ClassError.
+Proof. intros imem r m [->|[i [-> H]]]; simpl; [reflexivity | rewrite H; reflexivity]. Qed.
+
+Lemma method_invokes_only_declared : forall imem r m i m',
+  method_result imem true r m = MInvoke i m' -> r = Some i /\ m' = m /\ imem i m = true.
+Proof.
+  intros imem r m i m' H. unfold method_result in H. destruct r as [j|]; [|discriminate].
+  destruct (imem j m) eqn:E; [|discriminate]. inversion H; subst. auto.
+Qed.
+
+Lemma cast_other_type_raises : forall imem r tself ttype, tself <> ttype ->
+  (r = None \/ exists i, r = Some i /\ imem i 0 = false) -> cast_result imem r tself ttype = CRaise ValueError.
+Proof.
+  intros imem r tself ttype Hne H. apply Nat.eqb_neq in Hne. unfold cast_result.
+  destruct H as [->|[i [-> Hi]]]; [|rewrite Hi]; rewrite Hne; reflexivity.
+Qed.
+
+Lemma cast_same_type_returns_self : forall imem r t,
+  (r = None \/ exists i, r = Some i /\ imem i 0 = false) -> cast_result imem r t t = CSelf.
+Proof.
+  intros imem r t H. unfold cast_result.
+  destruct H as [->|[i [-> Hi]]]; [|rewrite Hi]; rewrite Nat.eqb_refl; reflexivity.
+Qed.
+
+(* distinct class objects with one name are indistinguishable to the lookup: the identity-level reading needs
+   distinct names (it holds for the builtin classes, below) *)
+Lemma same_name_classes_alias : exists (cn : cls -> string) dl c,
+  dspec cn (map (fun d => (cn (fst d), snd d)) dl) c <> decl_lookup dl c.
+Proof. exists (fun _ => "X"%string), [(0, 10)], 1. vm_compute. discriminate. Qed.
+
+(* ================= the data generated from the C sources ================= *)
+
+Fixpoint nodupb {A} (eqb : A -> A -> bool) (l : list A) : bool :=
+  match l with [] => true | x :: r => negb (existsb (eqb x) r) && nodupb eqb r end.
+
+Lemma nodupb_sound : forall {A} (eqb : A -> A -> bool), (forall a, eqb a a = true) ->
+  forall l, nodupb eqb l = true -> NoDup l.
+Proof.
+  intros A eqb Hr. induction l as [|x r IH]; intro H; [constructor|].
+  simpl in H. apply andb_true_iff in H. destruct H as [H1 H2]. constructor; [|apply IH; exact H2].
+  intro Hin. apply negb_true_iff in H1.
+  assert (existsb (eqb x) r = true) by (apply existsb_exists; exists x; split; auto).
+  congruence.
+Qed.
+
+Section Names.
+  Variable objs : list string.
+  Hypothesis objs_nodup : NoDup objs.
+
+  Lemma index_of_In : forall s, In s objs -> cn_of objs (index_of s objs) = s /\ index_of s objs < List.length objs.
+  Proof.
+    clear objs_nodup. unfold cn_of. induction objs as [|x r IH]; intros s Hin; [contradiction|]. simpl.
+    destruct (String.eqb x s) eqn:E.
+    - apply String.eqb_eq in E. subst. split; [reflexivity | lia].
+    - destruct Hin as [->|Hin]; [rewrite String.eqb_refl in E; discriminate|].
+      destruct (IH s Hin) as [H1 H2]. split; [exact H1 | lia].
+  Qed.
+
+  Lemma cn_of_inj : forall c c', c < List.length objs -> c' < List.length objs -> cn_of objs c = cn_of objs c' -> c = c'.
+  Proof. intros c c' H H' E. unfold cn_of in E. eapply NoDup_nth; eauto. Qed.
+
+  Lemma names_roundtrip : forall (names : list string) (ids : list inst), Forall (fun s => In s objs) names ->
+    map (fun d => (cn_of objs (fst d), snd d)) (combine (map (fun s => index_of s objs) names) ids) = combine names ids.
+  Proof.
+    induction names as [|s r IH]; intros ids HF; simpl; auto.
+    destruct ids as [|i ids]; simpl; auto. inversion HF; subst.
+    f_equal; [|apply IH; assumption]. simpl. destruct (index_of_In s H1) as [-> _]. reflexivity.
+  Qed.
+
+  Lemma dspec_identity_objs : forall (names : list string) (ids : list inst) c,
+    Forall (fun s => In s objs) names -> c < List.length objs ->
+    dspec (cn_of objs) (combine names ids) c =
+    decl_lookup (combine (map (fun s => index_of s objs) names) ids) c.
+  Proof.
+    intros names ids c HF Hc.
+    rewrite <- (names_roundtrip names ids HF).
+    apply dspec_decl_lookup. intros c' Hin Heq.
+    assert (Hc' : c' < List.length objs).
+    { apply in_map_iff in Hin. destruct Hin as [[a b] [Ha Hin]]. simpl in Ha; subst a.
+      apply in_combine_l in Hin. apply in_map_iff in Hin. destruct Hin as [s [<- Hs]].
+      eapply Forall_forall in HF; eauto. apply index_of_In; assumption. }
+    apply cn_of_inj; auto.
+  Qed.
+End Names.
+
+Definition cn_b : cls -> string := cn_of builtin_objects.
+Definition wiring_b : list (nat * cls) := wiring_ids builtin_objects cache_wiring.
+Definition builtin_decl_ids (insts : list (string * list bool)) : list (cls * inst) :=
+  combine (map (fun s => index_of s builtin_objects) (map fst insts)) (seq 0 (List.length insts)).
+
+Definition all_shapes_ok : bool :=
+  disp_cache_entry_shape_ok && disp_type_instance_shape_ok && disp_type_scan_shape_ok && disp_implements_shape_ok &&
+  disp_method_check_shape_ok && disp_implements_method_shape_ok && disp_cast_shape_ok && disp_declaration_shape_ok.
+
+Definition generated_check : bool :=
+  nodupb Nat.eqb (map fst cache_wiring)                                             (* no two entries share a slot *)
+  && forallb (fun e => Nat.ltb (fst e) cello_cache_num) cache_wiring                (* slots lie inside the cache area *)
+  && Nat.eqb (Nat.modulo cello_cache_num 3) 0                                       (* the area is whole triples *)
+  && forallb (fun e => existsb (fun c => String.eqb (fst c) (snd e)) builtin_classes) cache_wiring
+  && nodupb String.eqb builtin_objects                                              (* distinct classes, distinct names *)
+  && forallb (fun c => existsb (String.eqb (fst c)) builtin_objects) builtin_classes
+  && forallb (fun t => existsb (String.eqb (fst t)) builtin_objects) builtin_types
+  && forallb (fun t => forallb (fun i => existsb (fun c => String.eqb (fst c) (fst i) &&
+                                                           Nat.eqb (snd c) (List.length (snd i))) builtin_classes)
+                                (snd t)) builtin_types                              (* instances are of class structs *)
+  && all_shapes_ok.
+
+Lemma generated_check_true : generated_check = true.
+Proof. vm_compute. reflexivity. Qed.
+
+Lemma generated_facts :
+  NoDup (map fst cache_wiring) /\
+  (forall i n, In (i, n) cache_wiring -> i < cello_cache_num /\ exists k, In (n, k) builtin_classes) /\
+  Nat.modulo cello_cache_num 3 = 0 /\
+  NoDup builtin_objects /\
+  (forall t insts, In (t, insts) builtin_types -> Forall (fun s => In s builtin_objects) (map fst insts)) /\
+  all_shapes_ok = true.
+Proof.
+  pose proof generated_check_true as H. unfold generated_check in H.
+  repeat (apply andb_true_iff in H; let H' := fresh "H" in destruct H as [H H']).
+  split; [apply (nodupb_sound Nat.eqb Nat.eqb_refl); assumption|].
+  split.
+  { intros i n Hin. split.
+    - rewrite forallb_forall in H7. apply H7 in Hin. apply Nat.ltb_lt in Hin. exact Hin.
+    - rewrite forallb_forall in H5. apply H5 in Hin. apply existsb_exists in Hin.
+      destruct Hin as [[c k] [Hc He]]. cbn [fst snd] in He. apply String.eqb_eq in He. subst. exists k; exact Hc. }
+  split; [apply Nat.eqb_eq; assumption|].
+  split; [apply (nodupb_sound String.eqb String.eqb_refl); assumption|].
+  split; [|assumption].
+  intros t insts Hin. apply Forall_forall. intros s Hs. apply in_map_iff in Hs. destruct Hs as [[s' m] [<- Hs]].
+  rewrite forallb_forall in H1. apply H1 in Hin. cbn [snd] in Hin. rewrite forallb_forall in Hin. apply Hin in Hs.
+  apply existsb_exists in Hs. destruct Hs as [[c k] [Hc He]]. cbn [fst snd] in He. apply andb_true_iff in He. destruct He as [He _].
+  apply String.eqb_eq in He. subst.
+  rewrite forallb_forall in H3. apply H3 in Hc. apply existsb_exists in Hc. destruct Hc as [o [Ho Heq]].
+  cbn [fst] in Heq. apply String.eqb_eq in Heq. subst. exact Ho.
+Qed.
+
+Lemma wiring_b_nodup : NoDup (map fst wiring_b).
+Proof. unfold wiring_b, wiring_ids. rewrite map_map. simpl. apply generated_facts. Qed.
+
+Lemma wiring_b_bound : forall i c, In (i, c) wiring_b -> i < cello_cache_num.
+Proof.
+  intros i c Hin. unfold wiring_b, wiring_ids in Hin. apply in_map_iff in Hin. destruct Hin as [[j n] [He Hin]].
+  simpl in He. inversion He; subst. destruct generated_facts as [_ [H _]]. apply (H i n Hin).
+Qed.
+
+(* every builtin type, every history of lookups of builtin objects used as classes: the instance the type declared for
+   that class, by class IDENTITY *)
+Lemma builtin_every_history : forall tname insts h, In (tname, insts) builtin_types ->
+  Forall (fun kc => snd kc < List.length builtin_objects) h ->
+  exists T', run_history cn_b wiring_b (cold_type cello_cache_num (builtin_decl insts)) h =
+             Some (T', map (fun kc => decl_lookup (builtin_decl_ids insts) (snd kc)) h).
+Proof.
+  intros tname insts h Hin HF.
+  destruct (every_history_from_cold cn_b wiring_b cello_cache_num wiring_b_nodup wiring_b_bound (builtin_decl insts) h)
+    as [T' [H _]].
+  exists T'. rewrite H. f_equal. f_equal. apply map_ext_in. intros [k c] Hkc. simpl.
+  destruct generated_facts as [_ [_ [_ [Hnd [Hnames _]]]]].
+  unfold builtin_decl, builtin_decl_ids, cn_b.
+  apply dspec_identity_objs; auto.
+  - eapply Hnames; eauto.
+  - eapply Forall_forall in HF; eauto. exact HF.
 Qed.
